@@ -52,7 +52,14 @@ func main() {
 		rounds := fs.Int("rounds", 6, "message rounds per type")
 		slices := fs.String("slices", "prim,calc,msg", "which case files to emit")
 		only := fs.String("types", "", "restrict message cases to these type ids")
+		kinds := fs.String("kinds", "", "restrict primitive cases to these helper families")
 		fs.Parse(os.Args[2:])
+		if *kinds != "" {
+			primKinds = map[string]bool{}
+			for _, k := range strings.Split(*kinds, ",") {
+				primKinds[k] = true
+			}
+		}
 		rep := corrReport{Files: map[string]int{}, Stats: map[string][]string{}, Samples: map[string][]string{}, Seed: *seed}
 		root := &rng{s: *seed}
 		for _, sl := range strings.Split(*slices, ",") {
